@@ -199,8 +199,14 @@ def analyse(F, E, b, alloc_len_expr, make_bbs):
                 e = e[3][0]
                 continue
             break
-        if e[0] == "proj" and e[2][-2:] == (data_name, "slice") or (e[0] == "proj" and data_name in e[2] and e[2][-1] == "slice"):
-            return idx or ("fixed",)
+        if e[0] == "proj":
+            names = tuple(e[2])
+            r = e[1]
+            while r[0] == "proj":  # a reference taken in between: `(&mut (*p).data).slice`
+                names = tuple(n for n in r[2] if n != "*") + tuple(n for n in names if n != "*")
+                r = r[1]
+            if names[-2:] == (data_name, "slice") or (data_name in names and names[-1] == "slice"):
+                return idx or ("fixed",)
         return None
 
     nexts = []
@@ -248,7 +254,11 @@ def analyse(F, E, b, alloc_len_expr, make_bbs):
         ie = nobb(wd[1])
         rng = []
         find_calls(ie, lambda e: e[2] == "next", rng)
-        if not rng:
+        dom_ = B.dominators()
+        own_counter = ie[0] == "induction" and nobb(ie[1]) == ("const", 0) and ie[2] == 1 and ie[3] in loop and (wbi in dom_.get(ie[3], set()) or ie[3] in dom_.get(wbi, set()))
+        if not rng and not own_counter:
+            # (a counter kept next to the loop - `guard.initialized`, starting at 0 and stepped by one per iteration - is as good
+            # as the range's own value)
             unsup.append("the slot index %s is not taken from the loop's own counter" % symx.show(wd[1]))
     else:
         viol.append(("cursor-step", "every iteration writes the same slot", wt["span"]))
